@@ -814,6 +814,26 @@ fn cmd_panic(a: &Args) -> i32 {
                 }
                 runner::with(|r| r.execs += 1);
             }
+            // the same on the default strategy, the reader holding 8 guards (unpaid debts in the node being helped)
+            let before = tp::DESTROY_IN_PAYALL.load(std::sync::atomic::Ordering::Relaxed);
+            let base = wl_panic::directed_destructor_in_debt_walk_default(None, exec_no);
+            let inside = tp::DESTROY_IN_PAYALL.load(std::sync::atomic::Ordering::Relaxed) - before;
+            runner::count("panic.directed.default.destructions_inside_debt_walk", inside);
+            for nth in 1..=base.counts[fault::K_DESTRUCTOR as usize] {
+                let o = wl_panic::directed_destructor_in_debt_walk_default(Some((fault::K_DESTRUCTOR, nth)), exec_no);
+                plans += 1;
+                runner::count("panic.plans.directed.default", 1);
+                if o.injected {
+                    fired += 1;
+                    if let Some(i) = fault::injection() {
+                        if i.in_payall {
+                            runner::count("panic.fired.inside_debt_walk", 1);
+                            runner::count("panic.fired.inside_debt_walk.default_strategy", 1);
+                        }
+                    }
+                }
+                runner::with(|r| r.execs += 1);
+            }
         }
         plans += wl_panic::access_scenarios(exec_no);
         runner::count("panic.plans.access_projection_and_constant", 5);
